@@ -53,6 +53,14 @@ VERDICT = {
     ("launchpad-nft-and-guaranteed-tickets/src/combined_selection.rs", 46): "equivalent: the flag guards of the combined step already imply the selection stage",
     ("launchpad-with-nft/src/mystery_sft.rs", 55): "GAP at the time of the sweep (the permission check of createInitialSfts was masked by 'Invalid token ID'), now killed by C15 (probes in the issued-but-not-created state)",
     ("launchpad-with-nft/src/mystery_sft.rs", 40): "GAP at the time of the sweep (issueMysterySft was never probed by strangers before anything was issued), now killed by C15",
+    ("launchpad-guaranteed-tickets/src/lib.rs", 195): "dead storage: the batch record of a settled participant is left behind; nothing reads batches after the filter",
+    ("launchpad-guaranteed-tickets-v2/src/guaranteed_ticket_winners.rs", 132): "equivalent (when the two are equal both branches add the same number to the leftover and mark nothing)",
+    ("launchpad-guaranteed-tickets/src/guaranteed_ticket_winners.rs", 66): "equivalent on reachable states (a whitelisted participant always has a status record: the branch is never taken)",
+    ("launchpad-guaranteed-tickets-v2/src/lib.rs", 276): "equivalent (won > deposited is unreachable; when equal the surplus is 0 and nothing is sent)",
+    ("launchpad-common/src/winner_selection.rs", 86): "equivalent (when equal the clamp writes the value already stored)",
+    ("launchpad-common/src/random.rs", 86): "inside Random::hash_seed, whose body is replaced by the typed-handle hook on the debug VM (trusted base)",
+    ("launchpad-guaranteed-tickets/src/token_release.rs", 119): "equivalent (when equal the clamp changes nothing)",
+    ("launchpad-common/src/winner_selection.rs", 52): "equivalent (the branch rewrites an unchanged batch with the same values)",
     ("launchpad-guaranteed-tickets/src/token_release.rs", 56): "GAP at the time of the sweep (v1 schedule change exactly at the confirmation start round), now killed by C13 and C17 with a concrete input",
 }
 for r in surv:
